@@ -71,6 +71,13 @@ CHECKS['C14'] = dict(
         'The in-place reordering of the caller\'s bc_points LIST is not treated as altering the data points. Floats as reals (1e-9).',
    ref='3/C14')
 
+CHECKS['C07'] = dict(
+   text='For 39 float-or-quantity parameters and every unit of the slot dimension as preferred unit, the object built from a SYMBOLIC bare number is compared field by field (terms) with the one built from the explicit quantity; '
+        'the engine forks where the code branches on the number, so z3 finds which numbers (e.g. 0) are treated specially. Explicit quantities with symbolic magnitudes under two preferred units and the three presets give identical terms.',
+   note='Bare numbers over the stated ranges incl. 0 and negatives (pressures >= 0, |angles| <= 6). Calculator entry points: the solver object is replaced by a recorder, so what is decided is the coercion of the argument, not the trajectory '
+        '(whole-trajectory bit-identity under different preferences is covered on carriers in C10/C11 harnesses when present). Display units of derived fields may differ; magnitudes may not.',
+   ref='3/C07')
+
 NOT_YET = {}
 
 def main():
